@@ -27,6 +27,11 @@ func fld(p value, i int) *value {
 	return &(*pp).(structure)[i]
 }
 
+func lastFld(p *value) *value {
+	s := (*p).(structure)
+	return &s[len(s)-1]
+}
+
 func u64(v value) uint64 {
 	c, ok := v.(uint64)
 	if !ok {
@@ -63,7 +68,7 @@ func init() {
 		},
 		"(*sync.RWMutex).Lock": func(fr *frame, a []value) value {
 			w := fld(fld(a[0], 0), 0)
-			rc := fld(fld(a[0], 3), 1)
+			rc := lastFld(fld(a[0], 3))
 			fr.m.block(func() bool { return u64(*w) == 0 && u64(*rc) == 0 })
 			*w = uint64(1)
 			return nil
@@ -78,13 +83,13 @@ func init() {
 		},
 		"(*sync.RWMutex).RLock": func(fr *frame, a []value) value {
 			w := fld(fld(a[0], 0), 0)
-			rc := fld(fld(a[0], 3), 1)
+			rc := lastFld(fld(a[0], 3))
 			fr.m.block(func() bool { return u64(*w) == 0 })
 			*rc = u64(*rc) + 1
 			return nil
 		},
 		"(*sync.RWMutex).RUnlock": func(fr *frame, a []value) value {
-			rc := fld(fld(a[0], 3), 1)
+			rc := lastFld(fld(a[0], 3))
 			if u64(*rc) == 0 {
 				panic(targetPanic{iface{t: fr.m.runtimeErrT, v: "sync: RUnlock of unlocked RWMutex"}})
 			}
@@ -92,7 +97,7 @@ func init() {
 			return nil
 		},
 		"(*sync.WaitGroup).Add": func(fr *frame, a []value) value {
-			c := fld(fld(a[0], 1), 1)
+			c := lastFld(fld(a[0], 1))
 			n := int64(u64(*c)) + int64(u64(a[1]))
 			if n < 0 {
 				panic(targetPanic{iface{t: fr.m.runtimeErrT, v: "sync: negative WaitGroup counter"}})
@@ -101,7 +106,7 @@ func init() {
 			return nil
 		},
 		"(*sync.WaitGroup).Done": func(fr *frame, a []value) value {
-			c := fld(fld(a[0], 1), 1)
+			c := lastFld(fld(a[0], 1))
 			n := int64(u64(*c)) - 1
 			if n < 0 {
 				panic(targetPanic{iface{t: fr.m.runtimeErrT, v: "sync: negative WaitGroup counter"}})
@@ -110,12 +115,12 @@ func init() {
 			return nil
 		},
 		"(*sync.WaitGroup).Wait": func(fr *frame, a []value) value {
-			c := fld(fld(a[0], 1), 1)
+			c := lastFld(fld(a[0], 1))
 			fr.m.block(func() bool { return u64(*c) == 0 })
 			return nil
 		},
 		"(*sync.Once).Do": func(fr *frame, a []value) value {
-			d := fld(fld(a[0], 0), 1)
+			d := lastFld(fld(a[0], 0))
 			if u64(*d) == 0 {
 				defer func() { *d = uint64(1) }()
 				fr.m.call(fr, fr.callPos, a[1], nil)
